@@ -128,7 +128,7 @@ def run(check):
                   "action sequences over {provide deploy/enabling(true,false)/starting(valid,invalid)/stop, Close, ForceClose, short sleep, release gate}: all "
                   "sequences up to length %d enumerated on %d plugin behaviours, sampled longer ones on 12 behaviours (success, hang obeying/ignoring cancel, gated "
                   "execution/deployment, deploy failure, crash, error output, undeclared output, hello EOF, schema mismatch, no cancel handler), and overlapped "
-                  "histories (2-3 actor goroutines, random delay plans, Close fired at schedule points); monitors: each stage finished at most once and never also "
+                  "histories (2-3 actor goroutines, random delay plans, Close fired at schedule points, the step goroutine held 30 ms at a schedule point while a stop / close arrives); monitors: each stage finished at most once and never also "
                   "impossible, reported outputs declared, exactly one completion then state finished, close calls return without error and no notification starts "
                   "after a close returned, ProvideStageInput never blocks (deadlock oracle) and once-only acceptance per stage checked with porcupine; "
                   "distinct = distinct (behaviour, action sequence) whose step goroutine was started") % (L, len(scripts_enum))
